@@ -58,7 +58,10 @@ def main():
         shutil.copy(demo, dst)
         demo_cmd = meta.get("demo_command") or ""
         flags = "-race " if "-race" in demo_cmd else ""
-        rc, out = sh("go test %s-vet=off -count=1 -run '%s' ./%s" % (flags, runre, loc), cwd=wt)
+        denv = dict(ENV)
+        if "GOARCH=386" in demo_cmd:
+            denv.update(GOARCH="386", CGO_ENABLED="0")   # the demonstration is for a platform whose int has 32 bits
+        rc, out = sh("go test %s-vet=off -count=1 -run '%s' ./%s" % (flags, runre, loc), cwd=wt, env=denv)
         res["demo_clean_rc"] = rc
         res["demo_clean_tail"] = out[-400:]
         rc, out = sh("git apply %s" % patch, cwd=wt)
@@ -67,7 +70,7 @@ def main():
             print(json.dumps(res, indent=1)); return
         rc, out = sh("go build ./...", cwd=wt)
         res["build_rc"] = rc
-        rc, out = sh("go test %s-vet=off -count=1 -run '%s' ./%s" % (flags, runre, loc), cwd=wt)
+        rc, out = sh("go test %s-vet=off -count=1 -run '%s' ./%s" % (flags, runre, loc), cwd=wt, env=denv)
         res["demo_patched_rc"] = rc
         res["demo_patched_tail"] = out[-600:]
         os.remove(dst)
